@@ -1,0 +1,375 @@
+//go:build verif
+
+package otr3
+
+// Verification hooks. This file is only compiled with the build tag "verif".
+// It adds read-only views of unexported state for an external conformance
+// harness, plus setters that do not touch protocol logic (ageing of the
+// stored wall-clock timestamps, direct access to the fragmenter).
+// Nothing in here is referenced by the library itself.
+
+import (
+	"math/big"
+	"reflect"
+	"time"
+	"unsafe"
+)
+
+// VerifCounter is one entry of the per key pair counter table.
+type VerifCounter struct {
+	OurKeyID, TheirKeyID     uint32
+	OurCounter, TheirCounter uint64
+}
+
+// VerifMACUse is one entry of the MAC key usage history.
+type VerifMACUse struct {
+	OurKeyID, TheirKeyID uint32
+	Key                  []byte
+}
+
+// VerifAKE is a view of the key exchange context.
+type VerifAKE struct {
+	Present         bool
+	State           string
+	Secret          []byte
+	OurPub          []byte
+	TheirPub        []byte
+	R               []byte
+	EncryptedGx     []byte
+	HashedGx        []byte
+	OurKeyID        uint32
+	TheirKeyID      uint32
+	RevealSigStored []byte
+	KeysOurCur      []byte
+	KeysTheirCur    []byte
+	KeysOldMAC      [][]byte
+	RecentStep      bool
+}
+
+// VerifState is a projection of a Conversation.
+type VerifState struct {
+	MsgState        int
+	Version         int
+	WhitespaceState int
+	Policies        int
+	OurTag          uint32
+	TheirTag        uint32
+	SSID            [8]byte
+	TheirKeyFP      []byte
+	OurKeyFP        []byte
+	SentRevealSig   bool
+
+	OurKeyID, TheirKeyID uint32
+	OurCurPriv           []byte
+	OurCurPub            []byte
+	OurPrevPriv          []byte
+	OurPrevPub           []byte
+	TheirCurPub          []byte
+	TheirPrevPub         []byte
+	Counters             []VerifCounter
+	MACHistory           []VerifMACUse
+	OldMACKeys           [][]byte
+
+	AKE VerifAKE
+
+	SMPState    string
+	SMPQuestion string
+	SMPHasS1    bool
+	SMPHasS2    bool
+	SMPHasS3    bool
+	SMPSecret   []byte
+
+	MayRetransmit  int
+	Retransmitting bool
+	ResendQueue    [][]byte
+
+	FragIndex, FragLen uint16
+	FragBuf            []byte
+	FragmentSize       uint16
+
+	Injections int
+
+	HeartbeatDue bool
+	RecentEnc    bool
+}
+
+func verifBig(b *big.Int) []byte {
+	if b == nil {
+		return nil
+	}
+	return append([]byte{}, b.Bytes()...)
+}
+
+func verifCopy(b []byte) []byte {
+	if b == nil {
+		return nil
+	}
+	return append([]byte{}, b...)
+}
+
+// VerifProject returns a copy of the conversation's protocol-relevant state.
+func VerifProject(c *Conversation) VerifState {
+	s := VerifState{
+		MsgState:        int(c.msgState),
+		WhitespaceState: int(c.whitespaceState),
+		Policies:        int(c.Policies),
+		OurTag:          c.ourInstanceTag,
+		TheirTag:        c.theirInstanceTag,
+		SSID:            c.ssid,
+		SentRevealSig:   c.sentRevealSig,
+		OurKeyID:        c.keys.ourKeyID,
+		TheirKeyID:      c.keys.theirKeyID,
+		OurCurPriv:      verifCopy(c.keys.ourCurrentDHKeys.priv),
+		OurCurPub:       verifBig(c.keys.ourCurrentDHKeys.pub),
+		OurPrevPriv:     verifCopy(c.keys.ourPreviousDHKeys.priv),
+		OurPrevPub:      verifBig(c.keys.ourPreviousDHKeys.pub),
+		TheirCurPub:     verifBig(c.keys.theirCurrentDHPubKey),
+		TheirPrevPub:    verifBig(c.keys.theirPreviousDHPubKey),
+		MayRetransmit:   int(c.resend.mayRetransmit),
+		Retransmitting:  c.resend.retransmitting,
+		FragIndex:       c.fragmentationContext.currentIndex,
+		FragLen:         c.fragmentationContext.currentLen,
+		FragBuf:         verifCopy(c.fragmentationContext.frag),
+		FragmentSize:    c.fragmentSize,
+		Injections:      len(c.injections.messages),
+	}
+	if c.version != nil {
+		s.Version = int(c.version.protocolVersion())
+	}
+	if c.theirKey != nil {
+		if pk, ok := c.theirKey.(*DSAPublicKey); !ok || pk != nil {
+			func() {
+				defer func() { _ = recover() }()
+				s.TheirKeyFP = c.theirKey.Fingerprint()
+			}()
+		}
+	}
+	if c.ourCurrentKey != nil {
+		s.OurKeyFP = c.ourCurrentKey.PublicKey().Fingerprint()
+	}
+	for _, ctr := range c.keys.counterHistory.counters {
+		if ctr != nil {
+			s.Counters = append(s.Counters, VerifCounter{ctr.ourKeyID, ctr.theirKeyID, ctr.ourCounter, ctr.theirCounter})
+		}
+	}
+	for _, it := range c.keys.macKeyHistory.items {
+		s.MACHistory = append(s.MACHistory, VerifMACUse{it.ourKeyID, it.theirKeyID, verifCopy(it.receivingKey)})
+	}
+	for _, k := range c.keys.oldMACKeys {
+		s.OldMACKeys = append(s.OldMACKeys, verifCopy(k))
+	}
+	if c.ake != nil {
+		a := c.ake
+		s.AKE = VerifAKE{
+			Present:      true,
+			Secret:       verifCopy(a.secretExponent),
+			OurPub:       verifBig(a.ourPublicValue),
+			TheirPub:     verifBig(a.theirPublicValue),
+			R:            verifCopy(a.r[:]),
+			EncryptedGx:  verifCopy(a.encryptedGx),
+			HashedGx:     verifCopy(a.xhashedGx),
+			OurKeyID:     a.keys.ourKeyID,
+			TheirKeyID:   a.keys.theirKeyID,
+			KeysOurCur:   verifCopy(a.keys.ourCurrentDHKeys.priv),
+			KeysTheirCur: verifBig(a.keys.theirCurrentDHPubKey),
+			RecentStep:   isWithinTimeToIgnoreQueryMessage(a.lastStateChange),
+		}
+		for _, k := range a.keys.oldMACKeys {
+			s.AKE.KeysOldMAC = append(s.AKE.KeysOldMAC, verifCopy(k))
+		}
+		switch st := a.state.(type) {
+		case nil:
+			s.AKE.State = "nil"
+		case authStateNone:
+			s.AKE.State = "none"
+		case authStateAwaitingDHKey:
+			s.AKE.State = "awDHKey"
+		case authStateAwaitingRevealSig:
+			s.AKE.State = "awRevSig"
+		case authStateAwaitingSig:
+			s.AKE.State = "awSig"
+			s.AKE.RevealSigStored = verifCopy(st.revealSigMsg)
+		}
+	}
+	switch c.smp.state.(type) {
+	case nil:
+		s.SMPState = "nil"
+	case smpStateExpect1:
+		s.SMPState = "expect1"
+	case smpStateExpect2:
+		s.SMPState = "expect2"
+	case smpStateExpect3:
+		s.SMPState = "expect3"
+	case smpStateExpect4:
+		s.SMPState = "expect4"
+	case smpStateWaitingForSecret:
+		s.SMPState = "waiting"
+	}
+	if c.smp.question != nil {
+		s.SMPQuestion = *c.smp.question
+	}
+	s.SMPHasS1 = c.smp.s1 != nil
+	s.SMPHasS2 = c.smp.s2 != nil
+	s.SMPHasS3 = c.smp.s3 != nil
+	s.SMPSecret = verifBig(c.smp.secret)
+	for _, m := range c.resend.pending() {
+		s.ResendQueue = append(s.ResendQueue, verifCopy(m.m))
+	}
+	s.HeartbeatDue = c.heartbeat.lastSent.Before(time.Now().Add(-heartbeatInterval))
+	s.RecentEnc = isWithinTimeToIgnoreQueryMessage(c.lastMessageStateChange)
+	return s
+}
+
+// VerifAgeClocks moves every stored wall-clock timestamp of the conversation
+// d into the past, which is how the harness lets time pass without sleeping.
+func VerifAgeClocks(c *Conversation, d time.Duration) {
+	if !c.heartbeat.lastSent.IsZero() {
+		c.heartbeat.lastSent = c.heartbeat.lastSent.Add(-d)
+	}
+	if !c.lastMessageStateChange.IsZero() {
+		c.lastMessageStateChange = c.lastMessageStateChange.Add(-d)
+	}
+	if c.ake != nil && !c.ake.lastStateChange.IsZero() {
+		c.ake.lastStateChange = c.ake.lastStateChange.Add(-d)
+	}
+}
+
+// VerifFragment exposes the fragmenter.
+func VerifFragment(c *Conversation, data []byte, size uint16) []ValidMessage {
+	return c.fragment(encodedMessage(data), size)
+}
+
+// VerifSetInstanceTags sets the tags without going through a message.
+func VerifSetInstanceTags(c *Conversation, our, their uint32) {
+	c.ourInstanceTag = our
+	c.theirInstanceTag = their
+}
+
+// VerifGlobal describes one package-level slice.
+type VerifGlobal struct {
+	Name     string
+	Len, Cap int
+	Content  []byte
+}
+
+// VerifGlobals lists the package-level byte slices that are used as prefixes.
+func VerifGlobals() []VerifGlobal {
+	g := func(n string, b []byte) VerifGlobal { return VerifGlobal{n, len(b), cap(b), append([]byte{}, b...)} }
+	return []VerifGlobal{
+		g("queryMarker", queryMarker),
+		g("errorMarker", errorMarker),
+		g("msgMarker", msgMarker),
+		g("defaultResentPrefix", defaultResentPrefix),
+		g("whitespaceTagHeader", whitespaceTagHeader),
+		g("fragmentSeparator", fragmentSeparator),
+		g("fragmentItagsSeparator", fragmentItagsSeparator),
+		g("otrv3FragmentationPrefix", otrv3FragmentationPrefix),
+		g("otrv2FragmentationPrefix", otrv2FragmentationPrefix),
+	}
+}
+
+// VerifWalk visits every byte slice, string, big.Int word slice and byte array
+// reachable from the conversation (through pointers, interfaces, slices,
+// structs and unexported fields). visit receives a path and the bytes (for
+// big.Int: the big-endian magnitude).
+func VerifWalk(c *Conversation, visit func(path string, b []byte)) {
+	seen := map[uintptr]bool{}
+	verifWalk(reflect.ValueOf(c), "c", visit, seen, 0)
+}
+
+var verifBigIntType = reflect.TypeOf(big.Int{})
+var verifTimeType = reflect.TypeOf(time.Time{})
+
+func verifWalk(v reflect.Value, path string, visit func(string, []byte), seen map[uintptr]bool, depth int) {
+	if depth > 40 || !v.IsValid() {
+		return
+	}
+	switch v.Kind() {
+	case reflect.Ptr:
+		if v.IsNil() {
+			return
+		}
+		p := v.Pointer()
+		if seen[p] {
+			return
+		}
+		seen[p] = true
+		if v.Type().Elem() == verifBigIntType {
+			bi := (*big.Int)(v.UnsafePointer())
+			visit(path, bi.Bytes())
+			// also the spare capacity of the word slice
+			bits := bi.Bits()
+			if cap(bits) > len(bits) {
+				full := bits[:cap(bits)]
+				visit(path+"#cap", new(big.Int).SetBits(append([]big.Word{}, full...)).Bytes())
+			}
+			return
+		}
+		verifWalk(v.Elem(), path, visit, seen, depth+1)
+	case reflect.Interface:
+		if v.IsNil() {
+			return
+		}
+		verifWalk(v.Elem(), path, visit, seen, depth+1)
+	case reflect.Struct:
+		if v.Type() == verifTimeType {
+			return
+		}
+		if v.Type() == verifBigIntType {
+			if v.CanAddr() {
+				bi := (*big.Int)(unsafe.Pointer(v.UnsafeAddr()))
+				visit(path, bi.Bytes())
+			}
+			return
+		}
+		for i := 0; i < v.NumField(); i++ {
+			f := v.Field(i)
+			name := v.Type().Field(i).Name
+			if name == "Rand" {
+				continue
+			}
+			if f.CanAddr() {
+				f = reflect.NewAt(f.Type(), unsafe.Pointer(f.UnsafeAddr())).Elem()
+			}
+			verifWalk(f, path+"."+name, visit, seen, depth+1)
+		}
+	case reflect.Slice:
+		if v.IsNil() {
+			return
+		}
+		if v.Type().Elem().Kind() == reflect.Uint8 {
+			n := v.Cap()
+			if n > 0 {
+				full := v.Slice3(0, n, n)
+				b := make([]byte, n)
+				reflect.Copy(reflect.ValueOf(b), full)
+				visit(path, b)
+			}
+			return
+		}
+		n := v.Cap()
+		full := v
+		if n > v.Len() {
+			full = v.Slice3(0, n, n)
+		}
+		for i := 0; i < full.Len(); i++ {
+			verifWalk(full.Index(i), path+"[]", visit, seen, depth+1)
+		}
+	case reflect.Array:
+		if v.Type().Elem().Kind() == reflect.Uint8 {
+			b := make([]byte, v.Len())
+			reflect.Copy(reflect.ValueOf(b), v)
+			visit(path, b)
+			return
+		}
+		for i := 0; i < v.Len(); i++ {
+			verifWalk(v.Index(i), path+"[]", visit, seen, depth+1)
+		}
+	case reflect.String:
+		visit(path, []byte(v.String()))
+	case reflect.Map:
+		for _, k := range v.MapKeys() {
+			verifWalk(v.MapIndex(k), path+"{}", visit, seen, depth+1)
+		}
+	}
+}
